@@ -358,4 +358,164 @@ def mrcLoadSubsetCrsOld (f : Bytes) (header : Nat) (shape : List Nat) (b : Nat) 
   | .ok a => .ok (transposeArr a crs)
   | .err e => .err e
 
+/-! ## deepen3: the `subset` argument as python slices, MRC data modes, header read under a permuted
+`mapc/mapr/maps`, EM files with an unknown type code, non-3-D EM headers -/
+
+/-- a python `slice(start, stop, step)`; `none` = `None` -/
+structure PySlice where
+  start : Option Int
+  stop : Option Int
+  step : Option Int
+deriving DecidableEq, Repr
+
+/-- what the binary readers take from a slice: `x.stop - x.start` / `.start` / `.stop` — the step is never
+looked at, `None` makes the subtraction raise `TypeError` (`none`) -/
+def sliceBounds (s : PySlice) : Option (Int × Int) :=
+  match s.start, s.stop with
+  | some a, some b => some (a, b)
+  | _, _ => none
+
+/-- the box `_load_em` works with (`none` = `TypeError`) -/
+def emSliceBox (sl : List PySlice) : Option Box := sl.mapM sliceBounds
+
+/-- `_load_mrc` (standard axis order): short tuples are completed with `slice(0, n)`, extra entries are never
+looked at; then `x.stop - x.start` for every entry kept -/
+def mrcSliceBox (sl : List PySlice) (shape : List Nat) : Option Box :=
+  ((List.range shape.length).map (fun i => sl.getD i ⟨some 0, some (shape.getD i 0 : Int), none⟩)).mapM sliceBounds
+
+/-- `Density.from_file(name.em, subset=sl)` at the level of `_load_em` -/
+def emLoadSlices (f : Bytes) (header : Nat) (shape : List Nat) (b : Nat) (sl : List PySlice) : Res (Arr Nat) :=
+  match emSliceBox sl with
+  | none => .err "TypeError"
+  | some box => loadSubset f header shape b box
+
+/-- `Density.from_file(name.mrc, subset=sl)` at the level of `_load_mrc` (standard axis order) -/
+def mrcLoadSlices (f : Bytes) (header : Nat) (shape : List Nat) (b : Nat) (sl : List PySlice) : Res (Arr Nat) :=
+  match mrcSliceBox sl shape with
+  | none => .err "TypeError"
+  | some box => loadSubset f header shape b box
+
+/-- python `slice.indices(n)` for a positive step: `(start, stop, step)` normalised (`None` → 0 / n, negative
+→ `+ n`, everything clipped into `[0, n]`); `none` for step ≤ 0 (h5py refuses those) -/
+def pyIndices (n : Nat) (s : PySlice) : Option (Nat × Nat × Nat) :=
+  let st := s.step.getD 1
+  if st ≤ 0 then none else
+  let norm (v : Int) : Nat := if v < 0 then (v + n).toNat else min v.toNat n
+  some ((s.start.map norm).getD 0, (s.stop.map norm).getD n, st.toNat)
+
+/-- the indices `range(start, stop, step)` selects -/
+def pyRange (t : Nat × Nat × Nat) : List Nat :=
+  (List.range ((t.2.1 - t.1 + t.2.2 - 1) / t.2.2)).map (fun k => t.1 + k * t.2.2)
+
+/-- numpy / h5py basic slicing `a[sl]` with a tuple of slices (what `_load_hdf5` does with `subset`): missing
+trailing entries are full, too many entries raise -/
+def pySliceArr (a : Arr Nat) (sl : List PySlice) : Res (Arr Nat) :=
+  if a.shape.length < sl.length then .err "IndexError" else
+  match ((List.range a.shape.length).map (fun i => pyIndices (a.shape.getD i 0) (sl.getD i ⟨none, none, none⟩))).mapM id with
+  | none => .err "Step"
+  | some ts =>
+    let sel := ts.map pyRange
+    .ok (Arr.ofFn (sel.map List.length)
+      (fun idx => a.getD (List.zipWith (fun (r : List Nat) i => r.getD i 0) sel idx) 0))
+
+/-- `mrcfile.utils.dtype_from_mode`: MRC data mode → numpy dtype name and item size (everything else raises
+`ValueError`, so `from_file` falls back to `skimage`) -/
+def mrcModeTable : List (Nat × String × Nat) :=
+  [(0, "int8", 1), (1, "int16", 2), (2, "float32", 4), (4, "complex64", 8), (6, "uint16", 2), (12, "float16", 2)]
+
+def mrcModeDtype (mode : Nat) : Option String := (mrcModeTable.find? (·.1 == mode)).map (·.2.1)
+def mrcModeSize (mode : Nat) : Option Nat := (mrcModeTable.find? (·.1 == mode)).map (·.2.2)
+
+/-- `mrcfile.utils.mode_from_dtype` (the writer's side; `uint8` is widened to mode 6) -/
+def mrcModeOfDtype (dtype : String) : Option Nat :=
+  if dtype == "uint8" then some 6 else (mrcModeTable.find? (·.2.1 == dtype)).map (·.1)
+
+/-- `_load_mrc` on the header for any `mapc/mapr/maps`: shape and origin are taken through the permutation
+(`np.transpose(data, crs)`, `np.take(origin, crs)`), the sampling rate is **not** -/
+def mrcReadCrs (h : MrcFields) : Res MrcParsed :=
+  match mrcRead h with
+  | .err e => .err e
+  | .ok p =>
+    if p.crs == [0, 1, 2] then .ok p
+    else .ok ⟨permute p.crs p.shape 0, permute p.crs p.origin 0, p.rate, p.header, p.crs⟩
+
+/-- item size `_load_em` reads with: a type code outside `DATA_TYPE_CODING` gives `data_type = None`, which
+numpy takes for float64 (`np.dtype(None)`), so such a file is read as 8-byte items (the code is read as a
+signed byte; 128…255 are negative and unknown just the same) -/
+def emReadItemsize (code : Nat) : Nat := (emItemsize code).getD 8
+
+/-- sub-box read of an EM file whatever its type code (`_load_em` with `subset`, not the full box) -/
+def emLoadSubsetAny (f : Bytes) (box : Box) : Res (Arr Nat) :=
+  match emParse f with
+  | none => .err "Malformed"
+  | some p => loadSubset f p.hdr p.shape (emReadItemsize p.code) box
+
+/-- `np.array(shape[::-1], "<i4")` of a density of any rank: the EM header `_save_em` writes has
+`500 + 4·rank` bytes -/
+def emHeaderLen (rank : Nat) : Nat := 4 + 4 * rank + 80 + 160 + 256
+
+/-! ### truncated files: what the row loop does when a read comes back short
+
+`f.read(row_bytes)` returns what is left, `np.frombuffer` refuses a byte count that is not a multiple of the item
+size, and the assignment `subset_data[z, y] = row` *broadcasts* a row of exactly one item over the whole row (any
+other count is refused).  `readSubset` above reports every short read as `ShortRead`; the functions below follow the
+code item by item and coincide with it on every file that holds the whole payload (`readSubsetExact_eq_readSubset`). -/
+
+/-- one `seek` + `read` + `frombuffer` + row assignment; `none` = `ValueError` -/
+def readRowExact (f : Bytes) (off k b : Nat) : Option (List Nat) :=
+  let avail := min (k * b) (f.length - off)
+  if avail % b ≠ 0 then none else
+  let m := avail / b
+  if m = k then some (readRow f off k b)
+  else if m = 1 then some (List.replicate k (rdTok f off b))
+  else none
+
+/-- concatenation of the parts if none failed -/
+def optFlat (l : List (Option (List Nat))) : Option (List Nat) :=
+  l.foldr (fun o acc => match o, acc with
+    | some a, some r => some (a ++ r)
+    | _, _ => none) (some [])
+
+def readRowsExact (f : Bytes) (header ny nx b z0 z1 y0 y1 x0 x1 : Nat) : Option (List Nat) :=
+  optFlat ((List.range (z1 - z0)).map (fun i =>
+    optFlat ((List.range (y1 - y0)).map (fun j =>
+      readRowExact f (rowOffset header ny nx b (z0 + i) (y0 + j) x0) (x1 - x0) b))))
+
+/-- `_read_binary_subset`, short reads as coded -/
+def readSubsetExact (f : Bytes) (header : Nat) (shape : List Nat) (b : Nat) (box : Box) : Res (Arr Nat) :=
+  match shape with
+  | [_, ny, nx] =>
+    match validateSlices box shape with
+    | some e => .err e
+    | none =>
+      match box with
+      | [(z0, z1), (y0, y1), (x0, x1)] =>
+        if z1 < z0 ∨ y1 < y0 ∨ x1 < x0 then .err "NegativeExtent" else
+        let (z0, z1, y0, y1, x0, x1) := (z0.toNat, z1.toNat, y0.toNat, y1.toNat, x0.toNat, x1.toNat)
+        match readRowsExact f header ny nx b z0 z1 y0 y1 x0 x1 with
+        | none => .err "ShortRead"
+        | some rows => .ok ⟨[z1 - z0, y1 - y0, x1 - x0], rows.toArray⟩
+      | _ => .err "Length"
+  | _ => .err "NotImplemented"
+
+/-- `_load_mrc` / `_load_em` with `subset` on a possibly truncated file -/
+def loadSubsetExact (f : Bytes) (header : Nat) (shape : List Nat) (b : Nat) (box : Box) : Res (Arr Nat) :=
+  if isFullBox box shape then
+    (if f.length < header + prodL shape * b then .err "ShortRead"
+     else .ok ⟨shape, (readRow f header (prodL shape) b).toArray⟩)
+  else readSubsetExact f header shape b box
+
+/-! ### the EM sampling-rate word in exact arithmetic -/
+
+/-- `int(self.sampling_rate[0] * 1000)` for an exact rate: truncation toward zero -/
+def emRateMilliOf (q : Rat) : Int := if 0 ≤ q then (q * 1000).floor else -((-q * 1000).floor)
+
+/-- the sampling rate `_load_em` reports (Å): `user_params[6] / 1000`, 0 replaced by 1 Å -/
+def emRateRead (m : Int) : Rat := if m = 0 then 1 else (m : Rat) / 1000
+
+/-! ### `use_memmap` on compressed input -/
+
+/-- `_load_mrc` / `_load_em`: `use_memmap` is dropped (with a warning) iff the file carries the gzip magic number -/
+def effMemmap (f : Bytes) (useMemmap : Bool) : Bool := useMemmap && !isGz f
+
 end Pm.C08
